@@ -57,6 +57,12 @@ ProviderPrivate::ProviderPrivate(QObject *parent, AbstractServer *server, Hostna
     // those listening instead of being stored alongside it
     srvProposed.setFlushCache(true);
     txtProposed.setFlushCache(true);
+
+    // If the hostname is already registered, it is the target of the SRV
+    // record; otherwise onHostnameChanged() supplies it once it is
+    if (hostname->isRegistered()) {
+        srvProposed.setTarget(hostname->hostname());
+    }
 }
 
 ProviderPrivate::~ProviderPrivate()
@@ -225,13 +231,20 @@ void Provider::update(const Service &service)
     d->ptrProposed.setTarget(fqName);
     d->srvProposed.setName(fqName);
     d->srvProposed.setPort(service.port());
-    d->srvProposed.setTarget(d->hostname->hostname());
     d->txtProposed.setName(fqName);
     d->txtProposed.setAttributes(service.attributes());
 
-    // Assuming a valid hostname exists, check to see if the new service uses
-    // a different name - if so, it must first be confirmed
+    // Only a registered hostname may become the target of the SRV record;
+    // while the hostname is being (re)asserted, hostname() is merely a
+    // candidate and the last registered one (if any) is kept
     if (d->hostname->isRegistered()) {
+        d->srvProposed.setTarget(d->hostname->hostname());
+    }
+
+    // Assuming a hostname has been registered, check to see if the new
+    // service uses a different name - if so, it must first be confirmed (if
+    // the hostname changes after all, onHostnameChanged() takes over)
+    if (!d->srvProposed.target().isEmpty()) {
         if (!d->confirmed || fqName != d->srvRecord.name()) {
             d->confirm();
         } else {
